@@ -22,11 +22,17 @@ BOUNDS = {
     'quick': 'FermionSite chains of 3 sites (conserve N / parity / None): every tuple of 2 operator positions x names in '
              '{C,Cd,N,JW,Id}, every tuple of 3 positions x names in {C,Cd,N}, every tuple of 4 positions x names in {C,Cd}; '
              'lattice couplings dx in +-{1,2} on 4 sites; expectation_value_term on a symbolic chi=2 state; GroupedSite of 2 fermion sites '
-             '(2 groups); canonical anticommutators on 3 sites; strength symbolic complex',
+             '(2 groups); canonical anticommutators on 3 sites; strength symbolic complex; the same with fermionic operators renamed '
+             '(rename_op) / re-added (add_op need_JW=True); heterogeneous chains (fermion / spin-1/2-fermion / spin sites, 4 sites, no charges) '
+             'with site offsets: apply_local_term(i_offset in {1,-1,2}) on symbolic product states for all 2-operator position tuples, '
+             'term_correlation_function_right/_left on a symbolic chi=2 state; GroupedSite of heterogeneous / unsorted sub-sites with '
+             "charges='independent'/'drop': state labels, operator table and need_JW flags are PLAIN ENUMERATION of concrete tables "
+             '(no symbolic input), only the terms on two such groups carry a symbolic strength',
     'thorough': 'additionally 4 sites for 2 and 3 operators (names {C,Cd,N,JW,Id} / {C,Cd,N}) and a fixed third of the 4-operator '
                 'position tuples on 4 sites; SpinHalfFermionSite (Cu,Cd,Cdu,Cdd,Ntot) for 2 and 4 operators on 3 sites; GroupedSite of 3 sites',
 }
-OUTSIDE = ('site operator tables (concrete matrices: plain evaluation, not applicable); terms with an odd number of operators from '
+OUTSIDE = ('site operator tables of the predefined sites (concrete matrices: plain evaluation, not applicable); apply_local_term of odd terms '
+           'on chains without a parity charge; terms with an odd number of operators from '
            'need_JW_string (only: rejected with ValueError when they act on more than one site); infinite MPS / unit-cell shifts; '
            'correlation_function / term_correlation_function (C08)')
 STUBS = ['BLAS contract stub', 'numpy facade for tenpy.networks.mpo / mps / terms / site / models.model / models.lattice']
